@@ -69,19 +69,30 @@ def run(res, drv, tier, seed):
                 elif prim == 'mech-base':
                     keys = [f'k{i}' for i in range(len(q))]
                     base = [r.choice([0.5, 1, 2, 3, 10]) for _ in q]
-                    mech.exponential_mechanism(dict(zip(keys, q)), eps, sens, base_measure=dict(zip(keys, base)))
+                    # the base measure is a dict keyed by candidate: its insertion order need not match, and it may cover more keys
+                    items = list(zip(keys, base))
+                    r.shuffle(items)
+                    if r.random() < 0.3:
+                        items.insert(r.randrange(len(items) + 1), ('unused-key', 7.0))
+                    mech.exponential_mechanism(dict(zip(keys, q)), eps, sens, base_measure=dict(items))
                 else:
                     # generalized EM: scores are its own; what is checked is that they are handed on with sensitivity 1
                     ds = [r.choice([1.0, 2.0, 3.0]) for _ in q]
                     mech.generalized_exponential_mechanism(np.array(q), np.array(ds), eps)
                     scores = M.generalized_em_scores(np.array(q), np.array(ds), 2 * np.log(len(q) / 0.5) / eps)
                     q, want_sens = list(scores), 1.0
-            elif prim.startswith('mst'):
+            elif prim.startswith('mst') or prim.startswith('ada'):
                 mono = prim.endswith('mono')
-                mst.exponential_mechanism(np.array(q), eps, sens, prng=fake, monotonic=mono)
-            elif prim.startswith('ada'):
-                mono = prim.endswith('mono')
-                ada.exponential_mechanism(np.array(q), eps, sens, prng=fake, monotonic=mono)
+                modl = mst if prim.startswith('mst') else ada
+                arr = np.array(q, dtype=np.float64)
+                keep = arr.copy()
+                modl.exponential_mechanism(arr, eps, sens, prng=fake, monotonic=mono)
+                # a second draw from the same score vector must see the same scores
+                modl.exponential_mechanism(arr, eps, sens, prng=fake, monotonic=mono)
+                if not np.array_equal(arr, keep):
+                    res.violation('failing-input', f'{prim}: the caller\'s quality vector was modified by the draw ({keep[:4]} -> {arr[:4]}); a repeated draw is mis-calibrated',
+                                  {'request': {'prim': prim, 'q': q, 'eps': eps, 'sens': sens}}, key='em:mutates-input')
+                    continue
             else:
                 bounded = prim.endswith('bounded')
                 # worst_approximated computes its own errors from a model; use a trivial model whose answers are 0-vectors
